@@ -68,7 +68,7 @@ class KroneckerProductLinearOperator(LinearOperator):
     :param linear_ops: :math:`\boldsymbol K_1, \ldots, \boldsymbol K_P`: the LinearOperators in the Kronecker product.
     """
 
-    def __init__(self, *linear_ops: Union[Float[Tensor, "... #M #N"], Float[LinearOperator, "... #M #N"]]):
+    def __init__(self, *linear_ops: Union[Float[Tensor, "... #M #N"], Float[LinearOperator, "... #M #N"]], **kwargs):
         try:
             linear_ops = tuple(to_linear_operator(linear_op) for linear_op in linear_ops)
         except TypeError:
@@ -92,7 +92,8 @@ class KroneckerProductLinearOperator(LinearOperator):
                 for linear_op in linear_ops
             )
 
-        super().__init__(*linear_ops)
+        # **kwargs: flags of subclasses (upper) that must survive clone / detach / to / type / representation-tree rebuilds
+        super().__init__(*linear_ops, **kwargs)
         self.linear_ops = linear_ops
 
     def __add__(
@@ -377,7 +378,7 @@ class KroneckerProductTriangularLinearOperator(KroneckerProductLinearOperator, _
             raise RuntimeError(
                 "Components of KroneckerProductTriangularLinearOperator must be TriangularLinearOperator."
             )
-        super().__init__(*linear_ops)
+        super().__init__(*linear_ops, upper=upper)
         self.upper = upper
 
     @cached
